@@ -8,6 +8,17 @@ pub use message::{AddressType, MessageType};
 pub use protocol::{Control, Wire, WireReader, WireSession, WireWriter};
 use radicle::node::UserAgent;
 
+/// Re-exports of the private framing modules for the external verification harness.
+/// Only compiled with `--cfg radicle_verif`; normal builds are unaffected.
+#[cfg(radicle_verif)]
+pub mod verif {
+    pub use super::frame::{
+        Control, Frame, FrameData, StreamId, StreamKind, Version, PROTOCOL_VERSION_STRING,
+    };
+    pub use super::protocol::MAX_INBOX_SIZE;
+    pub use super::varint::{payload, BoundsExceeded, VarInt};
+}
+
 use std::collections::BTreeMap;
 use std::convert::TryFrom;
 use std::ops::Deref;
